@@ -974,3 +974,36 @@ pub fn run_mode<S: Src, const P: u8, E: EncCase, const MODE: u8, const B: usize>
         }
     }
 }
+
+/// C07 / C13 (history): two EID-reporting response encoders in a row on the same
+/// context. `FIRST` / `SECOND`: 0 = Set Endpoint ID response, 1 = Get Endpoint ID
+/// response. The second response must still report the EID the context held
+/// before the first call (an encoder that consumes or changes the stored EID is
+/// invisible to a single-call check).
+pub fn resp_eid_twice<S: Src, const P: u8, const FIRST: u8, const SECOND: u8>(s: &mut S) {
+    let cfg: Cfg<1, 1> = Cfg::draw(s);
+    let ctx = cfg.build();
+    let resp0 = ctx.get_response().get_eid();
+    let req0 = ctx.get_request().get_eid();
+    let mut b1: [u8; 24] = s.arr();
+    let mut b2: [u8; 24] = s.arr();
+    let d1 = s.u8();
+    let d2 = s.u8();
+    let cc1 = draw_below(s, 6);
+    let r1 = if FIRST == 0 {
+        ctx.get_response().set_endpoint_id(completion(cc1), d1, MCTPSetEndpointIDAssignmentStatus::Accpeted, MCTPSetEndpointIDAllocationStatus::NoIDPool, &mut b1)
+    } else {
+        ctx.get_response().get_endpoint_id(completion(cc1), d1, MCTPGetEndpointIDEndpointType::Simple, MCTPGetEndpointIDEndpointIDType::DynamicEID, false, &mut b1)
+    };
+    let r2 = if SECOND == 0 {
+        ctx.get_response().set_endpoint_id(CompletionCode::Success, d2, MCTPSetEndpointIDAssignmentStatus::Accpeted, MCTPSetEndpointIDAllocationStatus::NoIDPool, &mut b2)
+    } else {
+        ctx.get_response().get_endpoint_id(CompletionCode::Success, d2, MCTPGetEndpointIDEndpointType::Simple, MCTPGetEndpointIDEndpointIDType::DynamicEID, false, &mut b2)
+    };
+    reached!(s, "enc: two responses encoded");
+    let eid_at = if SECOND == 0 { 13 } else { 12 };
+    chk!(s, P, C07, r1 == Ok(16) && r2 == Ok(16) && b2[11] == 0 && b2[eid_at] == resp0, "a second response still reports the EID the context held before the first one");
+    chk!(s, P, C13, ctx.get_response().get_eid() == resp0 && ctx.get_request().get_eid() == req0, "encoding two responses leaves the EID of both halves unchanged");
+    covopt!(s, P, C07, resp0 == 0x5A, "enc: EID 0x5A reported twice");
+    covopt!(s, P, C13, resp0 != req0, "enc: halves hold different EIDs");
+}
